@@ -86,6 +86,21 @@ func implSparseOps(line string) string {
 				default:
 					out = append(out, "x")
 				}
+			case 'M': // the same request through the sparse mount's file node (sparseIndexFile.Read)
+				f := strings.Split(op[1:], ":")
+				off, _ := strconv.ParseInt(f[0], 10, 64)
+				n, _ := strconv.Atoi(f[1])
+				mf, err := desync.VerifNewSparseMountFile(sf)
+				if err != nil {
+					out = append(out, "m:open-error")
+					break
+				}
+				if b, ok := mf.Read(make([]byte, n), off); ok {
+					out = append(out, "m:"+hx(b))
+				} else {
+					out = append(out, "m:EIO")
+				}
+				mf.Close()
 			case 'S':
 				if err := sf.WriteState(); err != nil {
 					out = append(out, "s-error")
@@ -228,7 +243,7 @@ func runC10(cfg Config) {
 				if rng.Intn(8) == 0 {
 					ln = 0
 				}
-				ops = append(ops, fmt.Sprintf("R%d:%d", off, ln))
+				ops = append(ops, fmt.Sprintf("%s%d:%d", []string{"R", "R", "M"}[rng.Intn(3)], off, ln))
 			case r < 10:
 				ops = append(ops, "S")
 			default:
@@ -244,7 +259,7 @@ func runC10(cfg Config) {
 			for k := 0; k < 3+rng.Intn(10); k++ {
 				switch r := rng.Intn(14); {
 				case r < 6:
-					ops = append(ops, fmt.Sprintf("R%d:%d", rng.Intn(L+4), rng.Intn(int(max)*3+1)))
+					ops = append(ops, fmt.Sprintf("%s%d:%d", []string{"R", "R", "M"}[rng.Intn(3)], rng.Intn(L+4), rng.Intn(int(max)*3+1)))
 				case r < 8:
 					ops = append(ops, "S")
 				case r < 9:
